@@ -156,11 +156,11 @@ Theorem c09_code_rtnext_sites_covered : map fst NEXT =
                                                                                              (* site_rtnext_vendor_case *)
   ; "set:iterator->_reset_on_ext#1"; "set:iterator->current_namespace#1"; "set:iterator->is_radiotap_ns#1"
                                                                                              (* site_rtnext_rtns_case *)
-  ; "set:iterator->_bitmap_shifter#0"; "if#11"; "set:iterator->_arg_index#0"; "upd:iterator->_arg_index#0"
+  ; "set:iterator->_bitmap_shifter#0"; "upd:iterator->_next_bitmap#0"; "if#11"; "set:iterator->_arg_index#0"; "upd:iterator->_arg_index#0"
   ; "set:iterator->_reset_on_ext#2"                                                          (* site_rtnext_ext_case *)
   ; "set:hit#1"; "upd:iterator->_bitmap_shifter#0"; "upd:iterator->_arg_index#1"             (* site_rtnext_next_entry *)
   ; "if#12"; "ret#4" ]                                                                       (* site_rtnext_if12; rtnext_after_switch1 *)
-  /\ length NEXT = 60%nat.
+  /\ length NEXT = 61%nat.
 Proof. exact rtnext_sites_covered. Qed.
 Print Assumptions c09_code_rtnext_sites_covered.
 
@@ -175,7 +175,7 @@ Theorem c09_code_rtinit_sites_covered : map fst INIT =
   ; "set:iterator->_bitmap_shifter#0"                                                        (* site_rtinit_present *)
   ; "set:iterator->_arg#0"                                                                   (* site_rtinit_pointers *)
   ; "set:iterator->_reset_on_ext#0"                                                          (* site_rtinit_constants *)
-  ; "set:iterator->_next_bitmap#0"                                                           (* site_rtinit_present *)
+  ; "set:iterator->_next_bitmap#0"; "upd:iterator->_next_bitmap#0"                           (* site_rtinit_present, site_rtinit_next_bitmap_step *)
   ; "set:iterator->_vns#0"; "set:iterator->current_namespace#0"                              (* site_rtinit_pointers *)
   ; "set:iterator->is_radiotap_ns#0"                                                         (* site_rtinit_constants *)
   ; "if#3"                                                                                   (* site_rtinit_if3 *)
@@ -185,13 +185,14 @@ Theorem c09_code_rtinit_sites_covered : map fst INIT =
   ; "upd:iterator->_arg#1"                                                                   (* site_rtinit_loop *)
   ; "set:iterator->this_arg#0"                                                               (* site_rtinit_pointers *)
   ; "ret#5" ]                                                                                (* site_rtinit_constants *)
-  /\ length INIT = 26%nat.
+  /\ length INIT = 27%nat.
 Proof. exact rtinit_sites_covered. Qed.
 Print Assumptions c09_code_rtinit_sites_covered.
 
-(* what is NOT an evaluated site: the gotos, the label, the two pointer increments, the call in the while condition *)
-Theorem c09_code_rtiter_not_sites : flat_map others body_ieee80211_radiotap_iterator_next = ["GotoStmt"; "GotoStmt"; "GotoStmt"; "GotoStmt"; "increment of iterator->_next_bitmap"; "label next_entry"] /\
-  flat_map others body_ieee80211_radiotap_iterator_init = ["increment of iterator->_next_bitmap"; "call in loop condition"].
+(* what is NOT an evaluated site: the four gotos and their label in next; nothing in init (the pointer increments are sites since
+   the translator scales them by the pointee's size, the while loop is an executable SLoop) *)
+Theorem c09_code_rtiter_not_sites : flat_map others body_ieee80211_radiotap_iterator_next = ["GotoStmt"; "GotoStmt"; "GotoStmt"; "GotoStmt"; "label next_entry"] /\
+  flat_map others body_ieee80211_radiotap_iterator_init = [].
 Proof. exact rtiter_not_sites. Qed.
 Print Assumptions c09_code_rtiter_not_sites.
 
